@@ -4,6 +4,11 @@ import json, subprocess
 
 # id: (level, engine, technique, level text, level note, design ref)
 CHECKS = {
+ "C20": ("exploration", "space",
+         "complete enumeration of option combinations x operations x input shapes and of batch sizes around the internal batch, the real kp binary vs. the in-process library result formatted by the harness",
+         "All 240 combinations of --inv, -r, -z, -t, -d {absent, 0, 3}, -D {absent, 1..4} x 4 operations (adaptor + projection pipeline, addone, time-dependent helmert, an invalid one) x 8 input shapes (empty, comments/blank only, one line, mixed 1-4 columns with comments and sexagesimal values, homogeneous 3 and 4 columns, two files, lines with extra columns), alternately through file arguments and stdin: exactly one output line per coordinate line, in order, each number equal to the library's result for that tuple (defaults 0 / NaN or -z / -t) formatted with the requested decimals, cut to the requested dimension, --inv and --roundtrip as documented, invalid operation / unreadable file give a message and a non-zero (non-panic) status, empty input exits 0; the batch axis: 24999, 25000, 25001, 50000 lines (thorough also 1, 49999, 50001, 75000) spread over two files x 4 option sets x 2 operations, incl. a first coordinate that crosses kp's decimals heuristic exactly at the batch boundary.",
+         "kp is built from /repo's working tree by ./check (cargo build --bin kp). Numbers are compared textually when -d is given, numerically (1e-5 + 1e-9 relative) otherwise; where a line gives a height/time and -z/-t is also given the affected elements are not judged.",
+         "DESIGN.md §3 C20"),
  "C09": ("fault_enumeration", "faults",
          "exhaustive enumeration of adversarial definitions (grammar product over every built-in name and gamut key, single-character mutations at every offset) and of all 4-tuples over a special-value alphabet, executed in supervised worker processes",
          "Grammar: for every built-in operator and every key of its gamut (hook H1) the key is set to each of 36 adversarial spellings (empty, signed zero, overflowing exponents, NaN, inf, malformed sexagesimal, multi-byte, dangling $ and parentheses, commas, huge integers, unknown ellipsoids ...) with the other required keys valid, all key pairs over 6 values for gamuts up to 10 keys, each name in macro / pipeline / PROJ / modifier-only positions, plus ~170 degenerate texts, through both Minimal and Plain; byte level: every single deletion, duplication and replacement by 17 characters (separators, sigils, newline, subscript zero, degree sign, NUL) at every character offset of 64 definitions; coordinates: ~100 instantiable definitions x both directions x all 13^4 = 28561 tuples over NaN, infinities, signed zeros, subnormal, +-1e308, pi/2, -pi, +-1, 0.1; functions: the public angular, tokenizer, parse_proj, Ellipsoid::named and ellipsoid trait methods over string and value alphabets (incl. degenerate ellipsoids). Verdict per case from the worker: answer with count <= len, caught panic, death by signal, or watchdog expiry.",
@@ -137,7 +142,7 @@ def main():
             "add_only": True,
         },
         "engines": [
-            {"name": "space", "path": "/verif/mc/src/engine.rs", "kind_free_text": "exhaustive mixed-radix product enumeration on 16 threads (par_range/decode)", "serves_properties": ["C01", "C05", "C06", "C07", "C08", "C10", "C11", "C13", "C14", "C16", "C19"]},
+            {"name": "space", "path": "/verif/mc/src/engine.rs", "kind_free_text": "exhaustive mixed-radix product enumeration on 16 threads (par_range/decode)", "serves_properties": ["C01", "C05", "C06", "C07", "C08", "C10", "C11", "C13", "C14", "C16", "C19", "C20"]},
             {"name": "explore", "path": "/verif/mc/src/props", "kind_free_text": "explicit-state / program-tree exploration of the real API against reference models written in Rust", "serves_properties": ["C02", "C03", "C04", "C12", "C17", "C18"]},
             {"name": "sched", "path": "/verif/mc/src/props/c18.rs", "kind_free_text": "shuttle DfsScheduler over real threads sharing Plain contexts and the process-wide grid cache; yield points from hook H4", "serves_properties": ["C18"]},
             {"name": "faults", "path": "/verif/mc/src/props/c15.rs", "kind_free_text": "exhaustive corruption operators over byte buffers (truncate, bit flip, field overwrite, token edit) applied inside worker processes", "serves_properties": ["C09", "C15"]},
